@@ -1,5 +1,6 @@
 """C06 — Operator string stays a consistent periodic world-line configuration."""
-LEAN_TARGETS = ["QmcProps.C06", "drv_c06"]
+from checks import extra_audits
+LEAN_TARGETS = ["QmcProofs.Refinement", "QmcProps.C06", "drv_c06"]
 BINS = ["c06"]
 
 THEOREMS = [
@@ -40,6 +41,7 @@ RULE = ("random interleavings of ALL public mutating calls with a fresh dyadic b
 
 
 def main(ck):
+    extra_audits.run(ck)
     if ck.lake_build(LEAN_TARGETS):
         ck.audit("QmcProps.C06", ["Qmc.C06." + t for t in THEOREMS])
     if ck.cargo_build(BINS):
